@@ -11,6 +11,7 @@
 #ifdef VERIF_CBMC
 unsigned G_gd_calls; int G_gd_ret; size_t G_gd_key; uint8_t G_gd_iv; size_t G_gd_ivlen; uint8_t G_gd_aad[5]; size_t G_gd_aadlen;
 size_t G_gd_in; size_t G_gd_inlen; size_t G_gd_tag; size_t G_gd_taglen; size_t G_gd_out;
+const uint8_t G_zero13 = 0;
 #define T13_NONCE(k, iv, seq) ((uint8_t)((iv)[k] ^ ((k) < 4 ? 0 : (seq)[(k) - 4])))
 #endif
 
@@ -43,5 +44,44 @@ ENSURES(RET == 1 IMPLIES (inlen >= 16 && G_gd_calls == 1 && G_gd_ret == 1 && G_g
 ENSURES(RET == 1 IMPLIES (*outlen < inlen - 16 && *record_type == out[*outlen] && *record_type != 0
 	&& ((verif_gk > *outlen && verif_gk < inlen - 16) IMPLIES out[verif_gk] == 0)
 	&& (*record_type == 20 || *record_type == 21 || *record_type == 22 || *record_type == 23)))
+;
+#endif
+
+#ifdef CONTRACT_TLS13_ENCRYPT
+/* sender side */
+#ifdef VERIF_CBMC
+unsigned G_ge_calls; int G_ge_ret; size_t G_ge_key; uint8_t G_ge_iv; size_t G_ge_ivlen; uint8_t G_ge_aad[5]; size_t G_ge_aadlen;
+uint8_t G_ge_inbyte; size_t G_ge_inlen; size_t G_ge_out; size_t G_ge_taglen; size_t G_ge_tag;
+#endif
+int gcm_encrypt(const BLOCK_CIPHER_KEY *key, const uint8_t *iv, size_t ivlen, const uint8_t *aad, size_t aadlen,
+	const uint8_t *in, size_t inlen, uint8_t *out, size_t taglen, uint8_t *tag)
+REQUIRES(RD_OK(key, sizeof(*key)) && ivlen == 12 && RD_OK(iv, 12) && aadlen == 5 && RD_OK(aad, 5) && taglen == 16 && WR_OK(tag, 16))
+REQUIRES(inlen >= 1 && RD_OK(in, inlen) && WR_OK(out, inlen))
+ASSIGNS(OBJ_WHOLE(out), G_ge_calls, G_ge_ret, G_ge_key, G_ge_iv, G_ge_ivlen, OBJ_WHOLE(G_ge_aad), G_ge_aadlen, G_ge_inbyte, G_ge_inlen, G_ge_out, G_ge_taglen, G_ge_tag)
+ENSURES((RET == 1 || RET == -1) && G_ge_calls == OLD(G_ge_calls) + 1 && G_ge_ret == RET && G_ge_key == (size_t)key && G_ge_iv == iv[verif_gk < 12 ? verif_gk : 0] && G_ge_ivlen == ivlen
+	&& G_ge_aad[0] == aad[0] && G_ge_aad[1] == aad[1] && G_ge_aad[2] == aad[2] && G_ge_aad[3] == aad[3] && G_ge_aad[4] == aad[4] && G_ge_aadlen == aadlen
+	&& G_ge_inlen == inlen && G_ge_out == (size_t)out && G_ge_taglen == taglen && G_ge_tag == (size_t)tag)
+ENSURES(verif_gk < inlen IMPLIES G_ge_inbyte == OLD(*((verif_gk < inlen) ? (in + verif_gk) : &G_zero13)))
+;
+
+int tls13_gcm_encrypt(const BLOCK_CIPHER_KEY *key, const uint8_t iv[12], const uint8_t seq_num[8], int record_type,
+	const uint8_t *in, size_t inlen, size_t padding_len, uint8_t *out, size_t *outlen)
+REQUIRES(RD_OK(key, sizeof(*key)) && RD_OK(iv, 12) && RD_OK(seq_num, 8) && WR_OK(outlen, sizeof(size_t)))
+REQUIRES(inlen <= 16384 + 256 && (inlen == 0 || RD_OK(in, inlen)))
+/* the staging buffer is inlen + 256 bytes: content type byte plus at most 255 bytes of padding (callers draw 0..127) */
+REQUIRES(padding_len <= 255)
+REQUIRES(WR_OK(out, inlen + 1 + padding_len + 16) && SEPARATE(out, in) && SEPARATE(out, outlen) && verif_gk < 20000 && G_ge_calls == 0)
+ASSIGNS(OBJ_WHOLE(out), *outlen, G_ge_calls, G_ge_ret, G_ge_key, G_ge_iv, G_ge_ivlen, OBJ_WHOLE(G_ge_aad), G_ge_aadlen, G_ge_inbyte, G_ge_inlen, G_ge_out, G_ge_taglen, G_ge_tag,
+	G_x_r, G_x_calls, G_x_len, G_x_rp)
+ENSURES(RET == 1 || RET == -1)
+ENSURES(RET == 1 IMPLIES (G_ge_calls == 1 && G_ge_ret == 1 && G_ge_key == (size_t)key
+	&& (verif_gk < 12 IMPLIES G_ge_iv == T13_NONCE(verif_gk < 12 ? verif_gk : 0, iv, seq_num))
+	&& G_ge_inlen == inlen + 1 + padding_len && *outlen == G_ge_inlen + 16
+	&& G_ge_aad[0] == 23 && G_ge_aad[1] == 3 && G_ge_aad[2] == 3 && G_ge_aad[3] == (uint8_t)(*outlen >> 8) && G_ge_aad[4] == (uint8_t)*outlen
+	&& G_ge_out == (size_t)out && G_ge_tag == (size_t)(out + G_ge_inlen)))
+/* TLSInnerPlaintext = content || type || zeros */
+ENSURES((RET == 1 && verif_gk < inlen) IMPLIES G_ge_inbyte == in[verif_gk])
+ENSURES((RET == 1 && verif_gk == inlen) IMPLIES G_ge_inbyte == (uint8_t)record_type)
+ENSURES((RET == 1 && verif_gk > inlen && verif_gk < inlen + 1 + padding_len) IMPLIES G_ge_inbyte == 0)
 ;
 #endif
